@@ -11,7 +11,7 @@ use sha2::{Digest, Sha256};
 use std::collections::BTreeMap;
 
 pub const OWNED: [&str; 4] = [HUB, DISP, REWARD, REG];
-const SENDERS: [&str; 16] = [OWNER, NOMINEE, EVE, HUB, BSEI, STSEI, REWARD, DISP, REG, SWAP, ORACLE, AIRDROP, KEEPER, UPDATER, ALICE, BOB];
+const SENDERS: [&str; 17] = [OWNER, NOMINEE, EVE, HUB, BSEI, STSEI, REWARD, DISP, REG, SWAP, ORACLE, AIRDROP, KEEPER, UPDATER, ALICE, BOB, "dispatcher2"];
 
 #[derive(Clone)]
 pub struct Auth {
@@ -31,6 +31,8 @@ enum Allow {
     Nominee,
     Addrs(Vec<&'static str>),
     OwnerOr(Vec<&'static str>),
+    /// the rewards dispatcher the hub names right now (the owner may have replaced it)
+    CurrentDispatcher,
     Nobody,
 }
 
@@ -54,7 +56,7 @@ fn table() -> Vec<Entry> {
         e(HUB, "hub.update_params(pause)", json!({"update_params":{"epoch_period":null,"unbonding_period":null,"peg_recovery_fee":null,"er_threshold":null,"reward_denom":null,"paused":true}}), Allow::Owner),
         e(HUB, "hub.set_owner", json!({"set_owner":{"new_owner_addr":NOMINEE}}), Allow::Owner),
         e(HUB, "hub.accept_ownership", json!({"accept_ownership":{}}), Allow::Nominee),
-        Entry { contract: HUB, label: "hub.bond_rewards", msg: json!({"bond_rewards":{}}), funds: vec![(USEI, 5)], allow: Allow::Addrs(vec![DISP]) },
+        Entry { contract: HUB, label: "hub.bond_rewards", msg: json!({"bond_rewards":{}}), funds: vec![(USEI, 5)], allow: Allow::CurrentDispatcher },
         e(HUB, "hub.redelegate_proxy", json!({"redelegate_proxy":{"src_validator":"val1","redelegations":[]}}), Allow::Addrs(vec![REG])),
         e(HUB, "hub.redelegate_proxy(move)", json!({"redelegate_proxy":{"src_validator":"val1","redelegations":[["val2",{"denom":USEI,"amount":"1"}]]}}), Allow::Addrs(vec![REG])),
         e(HUB, "hub.update_global_index", json!({"update_global_index":{"airdrop_hooks":null}}), Allow::Addrs(vec![UPDATER, REG])),
@@ -76,8 +78,8 @@ fn table() -> Vec<Entry> {
         e(REWARD, "reward.update_swap_denom", json!({"update_swap_denom":{"swap_denom":"ukrw","is_add":true}}), Allow::Owner),
         e(REWARD, "reward.set_owner", json!({"set_owner":{"new_owner_addr":NOMINEE}}), Allow::Owner),
         e(REWARD, "reward.accept_ownership", json!({"accept_ownership":{}}), Allow::Nominee),
-        e(REWARD, "reward.swap_to_reward_denom", json!({"swap_to_reward_denom":{}}), Allow::Addrs(vec![DISP])),
-        e(REWARD, "reward.update_global_index", json!({"update_global_index":{}}), Allow::Addrs(vec![DISP])),
+        e(REWARD, "reward.swap_to_reward_denom", json!({"swap_to_reward_denom":{}}), Allow::CurrentDispatcher),
+        e(REWARD, "reward.update_global_index", json!({"update_global_index":{}}), Allow::CurrentDispatcher),
         e(REWARD, "reward.increase_balance", json!({"increase_balance":{"address":ALICE,"amount":"1"}}), Allow::Addrs(vec![BSEI])),
         e(REWARD, "reward.decrease_balance", json!({"decrease_balance":{"address":ALICE,"amount":"1"}}), Allow::Addrs(vec![BSEI])),
         e(REG, "registry.add_validator", json!({"add_validator":{"validator":{"address":"val3"}}}), Allow::OwnerOr(vec![HUB])),
@@ -133,6 +135,15 @@ impl Scenario for Auth {
                     }
                     vec![bond(ALICE, 1000), bond_st(BOB, 777), transfer(ALICE, HUB, BSEI, 3)]
                 }
+                "dispatcher_replaced" => vec![
+                    // the reward plumbing has run once, then the hub owner names another dispatcher
+                    bond(ALICE, 1000),
+                    bond_st(BOB, 777),
+                    transfer(ALICE, HUB, BSEI, 3),
+                    accrue("val1", USEI, 1000),
+                    update_index(UPDATER),
+                    exec("hub.update_config(dispatcher2)".into(), OWNER, HUB, json!({"update_config":{"rewards_dispatcher_contract":"dispatcher2","validators_registry_contract":null,"bsei_token_contract":null,"stsei_token_contract":null,"airdrop_registry_contract":null,"rewards_contract":null,"update_reward_index_addr":null}}), &[]),
+                ],
                 "evolved" => vec![
                     bond(ALICE, 1000),
                     bond_st(BOB, 777),
@@ -224,6 +235,10 @@ impl Scenario for Auth {
                 Allow::Owner => vec![g.own[e.contract].0.clone()],
                 Allow::Nominee => vec![g.own[e.contract].1.clone()],
                 Allow::Addrs(v) => v.iter().map(|s| s.to_string()).collect(),
+                Allow::CurrentDispatcher => {
+                    let cfg = c.query_value(HUB, &json!({"config":{}})).expect("hub config");
+                    cfg["reward_dispatcher_contract"].as_str().map(|s| vec![s.to_string()]).unwrap_or_default()
+                }
                 Allow::OwnerOr(v) => {
                     let mut r: Vec<String> = v.iter().map(|s| s.to_string()).collect();
                     r.push(g.own[e.contract].0.clone());
@@ -238,7 +253,9 @@ impl Scenario for Auth {
                 cx.probe(1);
                 if allowed.iter().any(|x| x == s) {
                     cx.trigger("c10_authorised_cells");
-                    if !out.ok() && is_auth_error(out.err()) {
+                    // only a refusal by the addressed contract itself counts (errors carry the name of the contract that
+                    // raised them); a sibling further down the call tree may legitimately refuse in an odd wiring
+                    if !out.ok() && is_auth_error(out.err()) && out.err().starts_with(&format!("{}:", e.contract)) {
                         cx.viol("C10.designated_principal", format!("{} rejects its designated principal", e.label), format!("{}: {}", a.label, out.err()));
                     }
                     if out.ok() {
